@@ -169,7 +169,7 @@ def T9(m, R):
         if len(pairs) != want_pairs:
             problems.append('%d (0x)?(digits) pairs, expected %d' % (len(pairs), want_pairs))
         if blk is None:
-            problems.append('no `if match:` block follows')
+            R.undecided(f, st, 'no `if match:` block follows the colour regex: how its groups are used is not recognised', construct=cons); continue
         else:
             # conversions in source order: `name = int(..)`, or `L.append(int(..))` with L unpacked into names afterwards
             ints = []
@@ -284,7 +284,8 @@ def T9(m, R):
                         if roles.get(g, ('?',))[0] != role:
                             problems.append('%s uses group %s (%s) where the %s group %s is needed' % (short(n), g, roles.get(g, ('?',))[0], role, by_role.get(role)))
         elif blk is None:
-            problems.append('no `if match:` block follows')
+            R.undecided(f, st, "no `if match:` block follows the alignment regex '%s': how its groups are used is not recognised" % ch, construct=cons)
+            continue
         R.check(not problems, f, st, "'%s': groups FILL, SIGN, WIDTH used as fill, extend flag and width" % ch, '; '.join(problems), construct=cons)
     for ch in '<>^':
         if ch not in seen:
